@@ -389,6 +389,18 @@ pub fn run(args: &[String]) -> Value {
             b["what"] = json!(what);
             mm.push(kind, b);
         };
+        // negative (deliberately ill-typed) case: a rejection is the expected answer; if the checker accepts it the
+        // run is judged by its events (recorded above) and must not panic, but no result is predicted
+        let negative = case["negative"].as_bool().unwrap_or(false);
+        if negative {
+            match r.status.as_str() {
+                "rejected" => { *counts.entry("negative-rejected".into()).or_insert(0) += 1; }
+                "parse-panic" => bad("parse-panic", r.detail.clone(), &mut mm),
+                "panic" => bad("panic", r.detail.clone(), &mut mm),
+                _ => { *counts.entry("negative-accepted".into()).or_insert(0) += 1; }
+            }
+            continue;
+        }
         if exp_status == "inconclusive" || r.status == "budget" {
             *counts.entry("inconclusive".into()).or_insert(0) += 1;
             continue;
